@@ -56,17 +56,32 @@ class Viol:
 class Stopper:
     """Ends the bench when fn() is true (after `after` cycles at least)."""
     def __init__(self, fn, after=0):
-        self.fn, self.after, self.c = fn, after, 0
+        self.fn, self.after, self.c, self.ok = fn, after, 0, False
 
     def signals(self):
         return []
 
     def step(self, v, c):
         self.c = c
+        self.ok = self.c >= self.after and bool(self.fn())      # evaluated every cycle (fn may have side effects)
         return None
 
     def done(self):
-        return self.c >= self.after and self.fn()
+        return self.ok
+
+
+class Forcer:
+    """Ends the bench at once when fn() becomes true (stuck core: the verdict is already recorded)."""
+    def __init__(self, fn):
+        self.fn, self.force = fn, False
+
+    def signals(self):
+        return []
+
+    def step(self, v, c):
+        if self.fn():
+            self.force = True
+        return None
 
 
 class CSRTop(Module):
@@ -76,6 +91,9 @@ class CSRTop(Module):
         self.bus = csr_bus.Interface(data_width=32, address_width=14)
         self.submodules.bank = csr_bus.CSRBank(dut.get_csrs(), address=0, bus=self.bus)
         self.map = {c.name: i for i, c in enumerate(self.bank.simple_csrs)}
+        for c in dut.get_csrs():            # single-word CSRStorage "x" is exported as simple CSR "x0"
+            if c.name not in self.map and c.name + "0" in self.map:
+                self.map[c.name] = self.map[c.name + "0"]
         if extra is not None:
             self.submodules.extra = extra
 
@@ -86,7 +104,8 @@ class CSRMaster:
     for one cycle; a read is adr/re for one cycle and dat_r taken on the cycle after.
     Logs: writes [(bus_cycle, name, value)], reads [(bus_cycle, name, value, tag)] where bus_cycle
     is the cycle during which the request was on the bus."""
-    def __init__(self, top, prog):
+    def __init__(self, top, prog, gap=1):
+        self.gap = gap          # idle bus cycles after a write (Wishbone2CSR never issues back-to-back accesses)
         self.bus, self.map = top.bus, top.map
         self.prog = iter(prog)
         self.writes, self.reads = [], []
@@ -137,6 +156,7 @@ class CSRMaster:
         if op[0] == "w":
             _, name, val = op
             self.writes.append((c + 1, name, val))
+            self.wait = self.gap
             w = {self.bus.adr: self.map[name], self.bus.we: 1, self.bus.dat_w: val}
             if self.has_re:
                 w[self.bus.re] = 0
